@@ -8,6 +8,8 @@
 #include <string.h>
 #include <pthread.h>
 #include <sched.h>
+#include <unistd.h>
+#include <sys/wait.h>
 #include <eav.h>
 
 static char **addr; static size_t *alen; static size_t naddr;
@@ -47,9 +49,37 @@ static void run_all (outcome_t *out, unsigned seed)
 
 typedef struct { outcome_t *out; unsigned seed; int rounds; const outcome_t *ref; long bad; } job_t;
 
+/* phase gates: relaxed atomics only, so that the gate itself orders nothing (a pthread barrier would hand every thread
+ * the clock of a faster thread that has already reached the next barrier, and hide a first-use race from TSan) */
+static int arrived[4]; static int nthr;
+
+/* first use of each mode's code by all threads at the same moment: what a lazily initialised table or cache cannot survive */
+static void first_use (int m)
+{
+    static const char probe[] = "a(b)c@x";
+    (void) (m == 0 ? is_822_local (probe, probe + 5) : m == 1 ? is_5321_local (probe, probe + 5)
+            : m == 2 ? is_5322_local (probe, probe + 5) : is_6531_local (probe, probe + 5));
+    eav_t eav;
+    eav_init (&eav);
+    eav.rfc = modes[m]; eav.tld_check = 1;
+    eav_setup (&eav);
+    for (size_t i = 0; i < naddr && i < 6; i++) {
+        const char *at = strrchr (addr[i], '@');
+        (void) eav_is_email (&eav, addr[i], alen[i]);
+        if (at) (void) (m == 0 ? is_822_local (addr[i], at) : m == 1 ? is_5321_local (addr[i], at)
+                        : m == 2 ? is_5322_local (addr[i], at) : is_6531_local (addr[i], at));
+    }
+    eav_free (&eav);
+}
+
 static void *worker (void *p)
 {
     job_t *j = p;
+    for (int m = 0; m < 4; m++) {
+        __atomic_fetch_add (&arrived[m], 1, __ATOMIC_RELAXED);
+        while (__atomic_load_n (&arrived[m], __ATOMIC_RELAXED) < nthr) sched_yield ();
+        first_use (m);
+    }
     for (int r = 0; r < j->rounds; r++) {
         run_all (j->out, j->seed + r);
         for (size_t k = 0; k < total (); k++)
@@ -74,8 +104,27 @@ int main (int argc, char **argv)
         addr[naddr][l] = 0; alen[naddr] = l; naddr++;
     }
     free (line); fclose (f);
+    /* the single-threaded reference is computed in a child process, so that nothing the library initialises lazily
+     * is already initialised when the threads start (a first-use race would otherwise be hidden) */
     outcome_t *ref = calloc (total (), sizeof *ref);
-    run_all (ref, 0);
+    int pfd[2];
+    if (pipe (pfd) != 0) return 3;
+    pid_t pid = fork ();
+    if (pid == 0) {
+        close (pfd[0]);
+        run_all (ref, 0);
+        size_t left = total () * sizeof *ref; const char *p = (const char *) ref;
+        while (left > 0) { ssize_t w = write (pfd[1], p, left); if (w <= 0) _exit (4); p += w; left -= (size_t) w; }
+        _exit (0);
+    }
+    close (pfd[1]);
+    {
+        size_t left = total () * sizeof *ref; char *p = (char *) ref;
+        while (left > 0) { ssize_t r = read (pfd[0], p, left); if (r <= 0) return 5; p += r; left -= (size_t) r; }
+        int st = 0; waitpid (pid, &st, 0);
+        if (!WIFEXITED (st) || WEXITSTATUS (st) != 0) return 6;
+    }
+    nthr = nthreads;
     pthread_t *th = calloc (nthreads, sizeof *th);
     job_t *jobs = calloc (nthreads, sizeof *jobs);
     for (int i = 0; i < nthreads; i++) {
